@@ -21,6 +21,7 @@ import nfc.tag.tt4
 from sim.c16_tags import SimT1, SimT2, SimT3, NdefApplet
 from sim.picc import SimPicc
 from sim.vendor_nxp import SimNxp
+from sim.auth_felica import SimFelicaLite
 
 PID = "C16"
 KINDS = ("timeout", "transmission", "protocol")
@@ -67,6 +68,8 @@ class FaultClf(object):
         self.gone_at = None      # script: the tag leaves right before the k-th sense() of the operation
         self.nsense = 0
         self.tagobj = None
+        self.mac_at = None       # script: the MAC of the k-th MAC-protected read of the operation does not verify
+        self.nmac = 0
 
     def tp(self):
         """`tag.target is not None` of the tag object under test (the frontend's own target while activating)"""
@@ -95,12 +98,14 @@ class FaultClf(object):
         self.armed = True
         if script and "gone" in script:
             self.gone_at, script = script["gone"], None
+        if script and "mac" in script:
+            self.mac_at, script = script["mac"], None
         self.script = script
 
     def rearm(self):
         """start recording a further operation on the same objects"""
         self.ev, self.npos, self.left, self.last, self.cur, self.curcc, self.clean = [], 0, 0, None, None, "-", []
-        self.script, self.gone_at, self.nsense = None, None, 0
+        self.script, self.gone_at, self.nsense, self.mac_at, self.nmac = None, None, 0, None, 0
 
     def _cc(self, data):
         if self.activation:
@@ -109,6 +114,11 @@ class FaultClf(object):
             return "ssel2"
         if self.proto == "T2" and data[0] in (0x1A, 0xAF) and len(data) in (2, 17):
             return "nonce"                                   # Ultralight C AUTHENTICATE part 1 / part 2
+        if self.proto == "T3" and len(data) > 34 and data[1] == 0x08 and data[-33] == 0x91 and data[-34] & 0x80:
+            return "nonce"                                   # FeliCa Lite-S write with MAC_A: bound to the write counter
+        if self.proto == "T3" and len(data) > 18 and data[1] == 0x08 and data[-17] == 0x88 and data[-18] & 0x80:
+            return "nonce"                                   # FeliCa Lite MC block: the write that locks the system blocks
+                                                             # (itself included) cannot be repeated once executed
         if self.proto == "T4":
             pcb = data[0]
             if pcb & 0xE2 == 0x02:
@@ -192,6 +202,13 @@ class FaultClf(object):
                         and rd["bn"] != data[0] & 1) else "rsp"
         if self.proto == "T4" and rd["t"] == "WTX":
             rk = "wtx"
+        if self.proto == "T3" and len(data) > 12 and data[1] == 0x06 and data[-1] in (0x81, 0x91) and data[-2] & 0x80 \
+                and len(rsp) >= 29 and rsp[10] == 0:
+            self.nmac += 1                                   # FeliCa Lite(-S) read with the MAC / MAC_A block appended
+            if self.mac_at == self.nmac:
+                rsp = bytearray(rsp)
+                rsp[-16] ^= 0x01                             # the MAC does not verify
+                rk = "badmac"
         self.ev.append(dict(e="Answer", rk=rk, ex=bool(ex)))
         self.last = rk if rk in ("rack", "wtx") else "answer"
         return bytearray(rsp)
@@ -271,6 +288,31 @@ def make_nxp(product, activated=True, **kw):
     target = nfc.clf.RemoteTarget("106A", sens_res=bytearray(b"\x44\x00"), sel_res=bytearray(b"\x00"),
                                   sdd_res=bytearray(sim.uid))
     return "T2", 0, sim, clf, nfc.tag.activate(clf, target) if activated else target
+
+
+LITE_KEY = b"c16-felica-key-0"
+
+
+def make_lite(kind="lite", activated=True):
+    """FeliCa Lite / Lite-S (sim/auth_felica.py) with card key LITE_KEY and a small NDEF message"""
+    ndef = bytes.fromhex("D1010B5402656E") + b"felicalite"                          # 17 byte: two data blocks
+    attr = bytearray(16)
+    attr[0:5] = bytes([0x10, 0x04, 0x01, 0x00, 0x0D])
+    attr[10] = 0x01
+    attr[11:14] = len(ndef).to_bytes(3, "big")
+    attr[14:16] = sum(attr[0:14]).to_bytes(2, "big")
+    data = ndef + bytes(-len(ndef) % 16)
+    user = {0: bytes(attr), 1: data[0:16], 2: data[16:32]}
+    sim = SimFelicaLite(kind, idm=bytes.fromhex("02FE112233445566"), ck=LITE_KEY, user=user)
+    sim.writes = 0
+    clf = FaultClf("T3", sim)
+    target = nfc.clf.RemoteTarget("212F", sensf_res=bytearray(sim.sensf_res()))
+    return "T3", 0, sim, clf, nfc.tag.activate(clf, target) if activated else target
+
+
+def authenticated(tag):
+    if tag.authenticate(LITE_KEY) is not True:
+        raise RuntimeError("setup: authenticate failed")
 
 
 def ACTIVATE(target_and_clf):
@@ -403,6 +445,28 @@ def ops_table():
         ]
         T.append(("vendor-" + name, lambda name=name: make_nxp(name), vops))
     T.append(("Type2Tag", lambda: make_t2(64), [("read_invalid_page", nop, lambda t: t.read(200), [], "qt")]))
+    # FeliCa Lite / Lite-S after authenticate(): NDEF reads go through read_with_mac (MAC block appended to every read)
+    def auth_ndef(tag):
+        authenticated(tag)
+        need_ndef(tag)
+    for name, kind in (("FelicaLite", "lite"), ("FelicaLiteS", "lites")):
+        lops = [
+            ("authenticate", nop, lambda t: t.authenticate(LITE_KEY), ["False"], "qt"),
+            ("auth+ndef_read", authenticated, lambda t: t.ndef, ["None"], "qt"),
+            ("auth+ndef_write", auth_ndef, set_octets(NDEF2), [], "qt"),
+            ("auth+ndef_write_long", auth_ndef, set_octets(NDEF3), [], "t"),
+            ("auth+read_with_mac", authenticated, lambda t: t.read_with_mac(1, 2), ["None"], "qt"),
+            ("auth+is_present", authenticated, lambda t: t.is_present, ["False"], "qt"),
+            ("auth+dump", authenticated, lambda t: t.dump(), ["any"], "t"),
+            ("auth+format", authenticated, lambda t: t.format(), ["False"], "qt"),
+            ("auth+protect", authenticated, lambda t: t.protect(), ["False"], "qt"),
+            ("ndef_read", nop, lambda t: t.ndef, ["None"], "qt"),
+            ("ndef_write", need_ndef, set_octets(NDEF2), [], "qt"),
+        ]
+        if kind == "lites":
+            lops.insert(5, ("auth+write_with_mac", authenticated,
+                            lambda t: t.write_with_mac(b"0123456789abcdef", 5), [], "qt"))
+        T.append(("vendor-" + name, lambda kind=kind: make_lite(kind), lops))
     # activation: nfc.tag.activate(clf, target) on every tag type / vendor variant of the harness; every exchange of the
     # activation (RATS, ATTRIB, the AUTHENTICATE / GET_VERSION probes of tt2_nxp) is a fault position of budget 1
     NTAG213 = b"\x00\x04\x04\x02\x01\x00\x0F\x03"
@@ -452,10 +516,12 @@ def run_one(factory, setup, op, script):
         proto, nretry, sim, clf, tag = factory()
         if tag is None:
             raise RuntimeError("activation failed")
-        setup(tag)
         clf.tagobj = tag
-    clf.arm(script)
-    run_op(clf, tag, op)
+    with det_random():
+        if op is not ACTIVATE:
+            setup(tag)
+        clf.arm(script)
+        run_op(clf, tag, op)
     return proto, nretry, clf, sim, tag
 
 
@@ -473,14 +539,28 @@ class _DetOs(object):
         return hashlib.sha256(b"c16-rnda-%d" % self._n).digest()[:n]
 
 
-def run_op(clf, tag, op):
+@contextlib.contextmanager
+def det_random():
+    """reproducible os.urandom() for nfc.tag.tt2_nxp (Ultralight C RndA) and nfc.tag.tt3_sony (FeliCa Lite RC)"""
     import nfc.tag.tt2_nxp as nxp
-    real_os = nxp.os
-    nxp.os = _DetOs(real_os if not isinstance(real_os, _DetOs) else real_os._real)
+    import nfc.tag.tt3_sony as sony
+    saved = [(m, m.os) for m in (nxp, sony)]
+    if any(isinstance(o, _DetOs) for _, o in saved):
+        yield                                   # already active (nested use)
+        return
+    det = _DetOs(saved[0][1])
+    for m, _ in saved:
+        m.os = det
     try:
-        _run_op(clf, tag, op)
+        yield
     finally:
-        nxp.os = real_os
+        for m, o in saved:
+            m.os = o
+
+
+def run_op(clf, tag, op):
+    with det_random():
+        _run_op(clf, tag, op)
 
 
 def _run_op(clf, tag, op):
@@ -562,9 +642,15 @@ def gen_traces(tier, only=None):
                                   doc=fdoc, gone=True)
                     traces.append(dict(id=fid, const=fconst, ev=clf2.ev))
                     meta[fid] = dict(cls=cname, op=oname + "+" + fname, script=dict(gone=k, then=fname))
+            for k in range(1, clf.nmac + 1):
+                p2, n2, clf2, sim2, tag2 = run_one(factory, setup, op, dict(mac=k))
+                tid = "%s/bad-mac-at-read%d" % (base, k)
+                traces.append(dict(id=tid, const=const, ev=clf2.ev))
+                meta[tid] = dict(cls=cname, op=oname, script=dict(mac=k))
             traces.append(dict(id=base + "/cover", const=const,
                                ev=[dict(e="Cover", N=clf.npos, bursts=list(bursts), scripts=scs, S=clf.nsense,
-                                        gone=list(range(1, clf.nsense + 1)))]))
+                                        gone=list(range(1, clf.nsense + 1)), M=clf.nmac,
+                                        mac=list(range(1, clf.nmac + 1)))]))
             meta[base + "/cover"] = dict(cls=cname, op=oname, script="cover")
     return traces, meta
 
@@ -588,7 +674,7 @@ def classify(tr, v, m):
         return "%s/%s:%s@%s(cc=%s)" % (cls, m["op"], rule, act, ctx.get("cc")), ev
     if ret["kind"] in ("raw", "other"):
         return "%s:%s:%s@%s" % (cls, rule, ret["val"], ret["site"]), ev
-    kind = sc.get("k", "tag-gone") if isinstance(sc, dict) else "-"
+    kind = sc.get("k", "bad-mac" if "mac" in sc else "tag-gone") if isinstance(sc, dict) else "-"
     if ret["kind"] == "tagerr":
         return "%s:%s:errno=%d-after-%s@%s" % (cls, rule, ret["errno"], kind, ret["site"]), ev
     val = ret["val"] if ret["val"] in ("None", "True", "False") else "value"
@@ -612,7 +698,7 @@ def selftest_traces(traces):
     return [t1, t2, t3]
 
 
-WITNESSES = ["W_GiveUp", "W_Doc", "W_AbsorbAfter", "W_Rack", "W_Passive", "W_WtxFault", "W_Gone"]
+WITNESSES = ["W_GiveUp", "W_Doc", "W_AbsorbAfter", "W_Rack", "W_Passive", "W_WtxFault", "W_Gone", "W_BadMac"]
 BUGGY = ["Bounded", "NoResendAfterAnswer", "Retries", "OnlyTagError", "AtMostOncePerAnswer", "TargetFollowsSense"]
 
 
